@@ -229,7 +229,27 @@ class C05(Prop):
         alg = self._alg('IterativeTransDMetropolisHastingsGaussianTape', dc_sigma_g=case['sg'], dc_sigma_d=case['sd'])
         val = integrate.dblquad(lambda d, g: float(alg.jump_params({'gamma': g, 'delta': d})), -PI / 6, PI / 6, -PI / 2, PI / 2,
                                 epsabs=1e-10, epsrel=1e-10)[0]
-        return {'integral': float(val)}
+        # the balancing DRAW under replayed normal deviates: which width scales which coordinate, compared with the widths the density uses
+        zs = [0.31, -0.47, 0.83, 0.11, -0.29, 0.05]
+        pos = [0]
+        o = np.random.randn
+
+        def randn(*a):
+            z = zs[pos[0] % len(zs)]
+            pos[0] += 1
+            return z
+        np.random.randn = randn
+        try:
+            draws = [[float(v) for v in alg.jump_params()] for _ in range(3)]
+        finally:
+            np.random.randn = o
+        q0 = float(alg.jump_params({'gamma': 1e-9, 'delta': 1e-9}))
+        qg = float(alg.jump_params({'gamma': 0.05, 'delta': 1e-9}))
+        qd = float(alg.jump_params({'gamma': 1e-9, 'delta': 0.05}))
+        # widths implied by the Gaussian density: q(g,0)/q(0,0) = exp(-g^2 / (2 sg^2))
+        wg = 0.05 / math.sqrt(-2 * math.log(qg / q0)) if 0 < qg < q0 else float('nan')
+        wd = 0.05 / math.sqrt(-2 * math.log(qd / q0)) if 0 < qd < q0 else float('nan')
+        return {'integral': float(val), 'draws': draws, 'zs': zs, 'density_widths': [wg, wd]}
 
     # ------------------------------------------------------------------ model
     def _pk(self, case):
@@ -374,6 +394,14 @@ class C05(Prop):
             if case['Lp'] == NEG_INF and impl['accepted']:
                 out.append(('zero-accepted', 'a zero-likelihood proposal was accepted (uniform draw %r)' % impl.get('u'), None))
         elif k == 'jump-density':
+            wg, wd = impl['density_widths']
+            zs = impl['zs']
+            for i, (g, d) in enumerate(impl['draws']):
+                zg, zd = zs[(2 * i) % len(zs)], zs[(2 * i + 1) % len(zs)]
+                if not (close(g, wg * zg, rtol=1e-6, atol=1e-9) and close(d, wd * zd, rtol=1e-6, atol=1e-9)):
+                    out.append(('jump-draw', 'the dimension-balancing draw for normal deviates (%r, %r) is (gamma, delta) = (%r, %r); the density jump_params(x) used in '
+                                'the acceptance has widths (%r, %r), i.e. expects (%r, %r)' % (zg, zd, g, d, wg, wd, wg * zg, wd * zd), None))
+                    break
             if abs(impl['integral'] - 1.0) > 1e-6:
                 out.append(('jump-density-normalisation', 'the coded density of the dimension-balancing draw integrates to %r over the '
                             'source-type box (sigma_g=%r, sigma_d=%r), not 1' % (impl['integral'], case['sg'], case['sd']), None))
